@@ -321,7 +321,12 @@ func runC11(p *core.Program, r *core.Report) {
 			r.Check(true, "R11.3", encName, "character index is one byte", pos, "")
 			continue
 		default:
-			f := pv.Form(total)
+			f := core.Lin{}
+			if dt, isDirect := total.(*directTotal); isDirect {
+				f = pv.LenForm(dt.ranged).Scale(dt.perTrip)
+			} else {
+				f = pv.Form(total)
+			}
 			// which branch: equal kinds
 			isFull := len(branchKinds.equal) == 0
 			if isFull {
@@ -337,6 +342,7 @@ func runC11(p *core.Program, r *core.Report) {
 
 	// ---------- R11.5 token values are pieces of the password string itself
 	checkDecodedValuesArePieces(p, r, dec)
+	r.Borrow("R11.5", func() { checkTokenAccessors(p, r) })
 	// … consecutive pieces whose lengths are the index bytes (= C12 R12.2b re-run)
 	if len(dec.Params) == 3 {
 		r.Borrow("R11.5", func() { checkConsecutiveSlices(p, r, dec, dec.Params[1]) })
@@ -470,6 +476,14 @@ func keys(m map[int64]bool) []int64 {
 // indexShape: the returned index is either slice(lit[1]{first}) (total=nil) or
 // phi(slice(lit[1]{first}), append(acc, one element)) accumulated over a full
 // range of a make([]byte, total) payload.
+// directTotal stands for "perTrip bytes for every element of ranged" where the payload is appended
+// to the index directly (it is only ever used as the total of indexShape).
+type directTotal struct {
+	ssa.Value
+	ranged  ssa.Value
+	perTrip int64
+}
+
 func indexShape(v ssa.Value, loops []*core.Loop) (first ssa.Value, total ssa.Value, ok bool) {
 	lit := func(v ssa.Value) (ssa.Value, bool) {
 		sl, ok := core.StripType(v).(*ssa.Slice)
@@ -517,7 +531,38 @@ func indexShape(v ssa.Value, loops []*core.Loop) (first ssa.Value, total ssa.Val
 	}
 	mk, okM := core.StripType(ri.X).(*ssa.MakeSlice)
 	if !okM {
-		return nil, nil, false
+		// the direct form: k bytes appended to the index itself on every trip of a range over the tokens
+		var end ssa.Value
+		for i, e := range phi.Edges {
+			if !loop.Blocks[phi.Block().Preds[i]] {
+				f, ok := lit(e)
+				if !ok {
+					return nil, nil, false
+				}
+				first = f
+				continue
+			}
+			if end != nil && end != e {
+				return nil, nil, false
+			}
+			end = e
+		}
+		k := int64(0)
+		for cur := end; cur != ssa.Value(phi); {
+			c, ok := cur.(*ssa.Call)
+			if !ok || !core.IsBuiltin(c, "append") || k > 4 {
+				return nil, nil, false
+			}
+			if _, ok := lit(c.Call.Args[1]); !ok {
+				return nil, nil, false
+			}
+			k++
+			cur = c.Call.Args[0]
+		}
+		if first == nil || k == 0 {
+			return nil, nil, false
+		}
+		return first, &directTotal{ranged: ri.X, perTrip: k}, true
 	}
 	for i, e := range phi.Edges {
 		if !loop.Blocks[phi.Block().Preds[i]] {
@@ -588,27 +633,112 @@ func checkFullLayout(p *core.Program, r *core.Report, enc, dec *ssa.Function) {
 			typOffE = o
 		}
 	})
-	// decoder: counted loop with step 2
+	if lenOffE == nil && typOffE == nil {
+		// the direct form: two appends per trip of a range over the tokens; the position of a byte
+		// within the trip's pair is its place in the append chain
+		for _, l := range core.Loops(enc) {
+			ri, ok := core.AsRange(l)
+			if !ok || ri.Kind != "slice" || core.StripType(ri.X) != ssa.Value(enc.Params[0]) {
+				continue
+			}
+			for _, in := range l.Header.Instrs {
+				phi, isPhi := in.(*ssa.Phi)
+				if !isPhi {
+					break
+				}
+				var end ssa.Value
+				okChain := true
+				for i, e := range phi.Edges {
+					if !l.Blocks[l.Header.Preds[i]] {
+						continue
+					}
+					if end != nil && end != e {
+						okChain = false
+					}
+					end = e
+				}
+				var chain []*ssa.Call
+				for cur := end; okChain && cur != nil && cur != ssa.Value(phi); {
+					c, ok := cur.(*ssa.Call)
+					if !ok || !core.IsBuiltin(c, "append") || len(chain) > 4 {
+						okChain = false
+						break
+					}
+					chain = append([]*ssa.Call{c}, chain...)
+					cur = c.Call.Args[0]
+				}
+				if !okChain || len(chain) != 2 {
+					continue
+				}
+				for k, c := range chain {
+					var el ssa.Value
+					if sl, ok := c.Call.Args[1].(*ssa.Slice); ok {
+						if al, ok := sl.X.(*ssa.Alloc); ok {
+							for _, ref := range core.Referrers(al) {
+								if ia, ok := ref.(*ssa.IndexAddr); ok {
+									for _, rr := range core.Referrers(ia) {
+										if st, ok := rr.(*ssa.Store); ok && st.Addr == ia {
+											el = st.Val
+										}
+									}
+								}
+							}
+						}
+					}
+					if el == nil {
+						continue
+					}
+					o := &off{2, int64(k), p.InstrPos(c)}
+					if unitOf(p, el, 0) != "" {
+						lenOffE = o
+					} else if isTokenTypeValue(el) {
+						typOffE = o
+					}
+				}
+			}
+		}
+	}
+	// decoder: a loop whose induction value advances the read position by 2 per trip: a counted loop
+	// with step 2 reading index[i+c], or a loop with step 1 (counted, or a range over the tokens)
+	// reading index[2i+c]; the index may be read through a tail slice index[lo:] with constant lo.
+	// Absolute position of the read in trip k: lo + a*init + c + 2k (a = 2/step).
 	pvD := core.NewProver(dec)
 	var lenOffD, typOffD *off
 	var start int64 = -1
 	for _, l := range core.Loops(dec) {
-		cnt, ok := core.AsCounted(l)
-		if !ok || cnt.Step != 2 {
+		var iv ssa.Value
+		var init, step int64
+		if cnt, ok := core.AsCounted(l); ok && (cnt.Step == 2 || cnt.Step == 1) {
+			s0, isC := core.ConstInt(cnt.Init)
+			if !isC {
+				continue
+			}
+			iv, init, step = cnt.Phi, s0, cnt.Step
+		} else if ri, ok := core.AsRange(l); ok && ri.Kind == "slice" && ri.Index != nil {
+			iv, init, step = ri.Index, 0, 1
+		} else {
 			continue
 		}
-		s, isC := core.ConstInt(cnt.Init)
-		if !isC {
-			continue
-		}
-		start = s
+		a := 2 / step
 		for b := range l.Blocks {
 			for _, in := range b.Instrs {
 				ia, ok := in.(*ssa.IndexAddr)
-				if !ok || core.StripType(ia.X) != ssa.Value(dec.Params[1]) {
+				if !ok {
 					continue
 				}
-				f := pvD.Form(ia.Index).Add(pvD.Form(cnt.Phi), -1)
+				var lo int64
+				base := core.StripType(ia.X)
+				if sl, isSl := base.(*ssa.Slice); isSl && sl.High == nil && sl.Max == nil && sl.Low != nil {
+					k, isC := core.ConstInt(sl.Low)
+					if !isC {
+						continue
+					}
+					lo, base = k, core.StripType(sl.X)
+				}
+				if base != ssa.Value(dec.Params[1]) {
+					continue
+				}
+				f := pvD.Form(ia.Index).Add(pvD.Form(iv), -a)
 				if len(f.T) != 0 {
 					continue
 				}
@@ -621,12 +751,14 @@ func checkFullLayout(p *core.Program, r *core.Report, enc, dec *ssa.Function) {
 					}
 					use = byteUse(ld, 0)
 				}
-				o := &off{1, f.C, p.InstrPos(ia)}
+				o := &off{1, lo + a*init + f.C, p.InstrPos(ia)}
 				switch use {
 				case "length":
 					lenOffD = o
+					start = 0
 				case "type":
 					typOffD = o
+					start = 0
 				}
 			}
 		}
@@ -1200,7 +1332,33 @@ func checkDecoderRefusals(p *core.Program, r *core.Report, dec *ssa.Function) {
 	ti := ssa.Value(dec.Params[1])
 	n := 0
 	for _, ret := range core.Returns(dec) {
-		if len(ret.Results) != 2 || core.IsNilConst(ret.Results[1]) || !isFreshError(ret.Results[1]) {
+		if len(ret.Results) != 2 || core.IsNilConst(ret.Results[1]) {
+			continue
+		}
+		if !isFreshError(ret.Results[1]) {
+			// an error handed up by expanded helpers (a merge of nil and fresh errors, returned under != nil):
+			// each fresh error in the merge was made for a reason of its own
+			if phi, isPhi := ret.Results[1].(*ssa.Phi); isPhi && freshOrNil(phi, map[ssa.Value]bool{}) {
+				var visit func(v ssa.Value, seen map[ssa.Value]bool)
+				visit = func(v ssa.Value, seen map[ssa.Value]bool) {
+					if seen[v] {
+						return
+					}
+					seen[v] = true
+					switch x := v.(type) {
+					case *ssa.Phi:
+						for _, e := range x.Edges {
+							visit(e, seen)
+						}
+					case *ssa.Call:
+						n++
+						reason, unknown := refusalReason(x.Block(), ti, 0)
+						r.Check(reason != "", "R11.4", name, "the decoder refuses only an empty/truncated index, an unknown kind or a password too short for the lengths", p.InstrPos(x),
+							"error made under "+unknown+": a pair produced by MakeIndices could be refused")
+					}
+				}
+				visit(phi, map[ssa.Value]bool{})
+			}
 			continue
 		}
 		n++
